@@ -133,19 +133,22 @@ Definition head_elems (f : file_event) : list elem :=
 Definition supported (fm : N) : bool :=
   fm_is_dir fm || fm_is_regular fm || fm_is_symlink fm || fm_is_device fm.
 
-(* the directory case after its loop: offsets become distances back from the goodbye
-   element, the table becomes the BST, the tail marker is appended *)
+(* the directory case after its loop.  Everything here is uint64 arithmetic in Go:
+     items[i].Offset = uint64(n) - items[i].Offset
+     makeGoodbyeBST(items)
+     tail: Offset: uint64(n), Size: uint64(16 + len(items)*24 + 24), Hash: tail marker *)
 Definition goodbye_of (n : N) (items : list item) : option elem :=
-  let items1 := map (fun it => (n - it_offset it, it_size it, it_hash it)) items in
+  let items1 := map (fun it => (sub64 (u64 n) (it_offset it), it_size it, it_hash it)) items in
   match make_goodbye_bst items1 with
   | None => None
   | Some t =>
-      Some (goodbye_elem (t ++ [(n, 16 + N.of_nat (length t) * 24 + 24, CaFormatGoodbyeTailMarker)]))
+      Some (goodbye_elem (t ++ [(u64 n, u64 (16 + N.of_nat (length t) * 24 + 24), CaFormatGoodbyeTailMarker)]))
   end.
 
-(* the goodbye item of one child: where its filename element started, how many bytes it
-   and the child took, the hash of its name *)
-Definition child_item (start n' : N) (name : bytes) : item := (start, n' - start, Sip.sip_hash name).
+(* the goodbye item of one child: Offset: uint64(start), Size: uint64(n - start),
+   Hash: SipHash(name) (a uint64) *)
+Definition child_item (start n' : N) (name : bytes) : item :=
+  (u64 start, u64 (n' - start), u64 (Sip.sip_hash name)).
 
 (* ---------- tar() on the event stream ---------- *)
 
